@@ -100,9 +100,26 @@ func GenDaemon(prop string, seed uint64, tier string) *DaemonScenario {
 			}
 		}
 	case "C06":
-		sc.DKGOnly = r.Bool(60)
+		sc.DKGOnly = r.Bool(50)
 		sc.N = r.Range(2, 7)
 		sc.T = r.Range(sc.N/2+1, sc.N)
+		if sc.N >= 3 && sc.T < sc.N && r.Bool(35) {
+			sc.DKGFault = &DKGFault{Kind: "down", Node: r.Range(1, sc.N-1)}
+		}
+		if !sc.DKGOnly && sc.DKGFault == nil && r.Bool(60) {
+			// a resharing, with joiners most of the time: every completer must hold one group
+			sc.Extra = r.Range(0, 2)
+			p := ResharePlan{AtRound: r.Range(2, 4)}
+			for j := 0; j < sc.Extra; j++ {
+				p.Join = append(p.Join, sc.N+j)
+			}
+			nm := sc.N + sc.Extra
+			p.NewT = r.Range(nm/2+1, nm)
+			sc.Reshares = []ResharePlan{p}
+			rounds = p.AtRound + (sc.KickoffS+3*sc.PhaseS)/sc.PeriodS + 4
+			faultEnd = g0 + int64(rounds)*periodMs
+			use["stop"], use["partition"] = false, false
+		}
 	case "C07":
 		kinds := []string{"", "", "", "abort", "expire", "exec_partition"}
 		sc.Extra = r.Range(0, 2)
@@ -145,10 +162,38 @@ func GenDaemon(prop string, seed uint64, tier string) *DaemonScenario {
 		}
 		rounds = atRound + 6
 		use["stop"], use["partition"] = false, r.Bool(20)
-		faultEnd = g0 + int64(rounds)*periodMs
+		if len(sc.Reshares) == 1 && sc.Reshares[0].Fail == "" && len(sc.Reshares[0].Join) > 0 && r.Bool(50) {
+			// between the end of the key generation and the transition some members of the old
+			// group go away: a threshold of the new group stays up
+			p := sc.Reshares[0]
+			R, L, J := sc.N-len(p.Leave), len(p.Leave), len(p.Join)
+			// until the round before the transition the old shares are needed (remainers + leavers),
+			// from the transition on the new ones (remainers + joiners)
+			canStop := R + L - sc.T
+			if c2 := R + J - p.NewT; c2 < canStop {
+				canStop = c2
+			}
+			t0 := g0 + int64(p.AtRound-1)*periodMs + int64(sc.KickoffS+3*sc.PhaseS+4)*1000
+			for i := 1; i < sc.N && canStop > 0; i++ {
+				leaving := false
+				for _, l := range p.Leave {
+					leaving = leaving || l == i
+				}
+				if !leaving && r.Bool(70) {
+					add(Act{AtMs: t0 + int64(r.Intn(3000)), Kind: "stop", Node: i})
+					canStop--
+				}
+			}
+		}
 	}
 	if use["loss"] {
 		sc.Net.DropPct, sc.Net.DupPct = r.Range(1, 15), r.Range(0, 10)
+		if prop == "C06" || prop == "C07" {
+			// these two quantify over delay, reordering, duplication and slow nodes, not over loss
+			// (a synchronous key generation does not promise agreement when messages vanish)
+			sc.Net.DropPct = 0
+			sc.Net.SlowPct, sc.Net.SlowMs = r.Range(5, 30), r.Range(50, 1500)
+		}
 		add(Act{AtMs: g0 + int64(r.Intn(int(periodMs))), Kind: "faults_on"})
 	}
 	if use["partition"] && sc.N >= 2 {
@@ -176,7 +221,7 @@ func GenDaemon(prop string, seed uint64, tier string) *DaemonScenario {
 			case 2:
 				add(Act{AtMs: at(), Kind: "http", Node: n, S: r.Pick("round", "latest", "next", "info", "chains", "health"), A: int64(r.Range(0, rounds))})
 			case 3:
-				add(Act{AtMs: at(), Kind: "http", Node: n, S: "next"})
+				add(Act{AtMs: at(), Kind: "http", Node: n, S: r.Pick("next", "next_cancel", "next_cancel"), A: int64(r.Intn(1000))})
 			case 4:
 				add(Act{AtMs: at(), Kind: "stream", Node: n, A: int64(r.Range(0, rounds/2)), B: int64(r.Range(2, 6))})
 			case 5:
